@@ -235,6 +235,15 @@ class LeanSide(object):
             if not ref.exists() or ref.read_bytes() != f.read_bytes():
                 changed.append(f.name)
         self.gen_changed = changed
+        # the hand-modelled environment of the translated functions (tools/meta/<prop>.json "environment"): a changed
+        # definition is a broken tie (translator/env_fingerprint.py)
+        try:
+            import env_fingerprint
+            for entry, was, now in env_fingerprint.differences(str(self.ws.repo), str(VERIF), self.prop):
+                self.broken.append('environment: %s changed (hand-modelled code around the translated functions; '
+                                   'snapshot %s, now %s)' % (entry, was, now))
+        except Exception as e:
+            self.broken.append('environment fingerprint crashed: %s: %s' % (type(e).__name__, e))
         if changed:
             self.log('generated tables differ from the committed snapshot: %s' % ', '.join(changed))
             self.overlay = self.ws.root / 'lean'
